@@ -211,6 +211,7 @@ func (e *Engine) intrinsic(st *State, fr *Frame, fn *ssa.Function, args []Value,
 		return retExit(st, nil), true
 	case "verifZone":
 		e.opt.Zone = concreteInt(args[0], name)
+		e.zoneAssumptions(st)
 		return retExit(st, nil), true
 	case "verifOffset":
 		return retExit(st, e.zone.offsetBV(st)), true
